@@ -56,11 +56,11 @@ def oracle(ck, extended):
         H = (2 ** J) * rng.randint(1, 4); W = (2 ** J) * rng.randint(1, 4)
         nb, c = rng.choice([(1, 1), (2, 1), (1, 3), (2, 2)])
         filt = (h0, h1) if rng.random() < 0.5 else (h0, h1, gen.int_filter(rng, L), gen.int_filter(rng, L))
-        oracle_swt(ck, m, J, filt, gen.int_tensor(rng, (nb, c, H, W)))
+        rt.guard(ck, oracle_swt, ck, m, J, filt, gen.int_tensor(rng, (nb, c, H, W)))
     for name in named_wavelets(rng, 25 if q else 106):
         w = pywt.Wavelet(name); J = rng.randint(1, 2 if q else 3)
         H = (2 ** J) * rng.randint(1, 6); W = (2 ** J) * rng.randint(1, 6)
-        oracle_swt(ck, rng.choice([2, 6]), J, (np.array(w.dec_lo), np.array(w.dec_hi)), gen.float_tensor(ck.nprng, (1, 2, H, W)), tol=1e-9, named=name)
+        rt.guard(ck, oracle_swt, ck, rng.choice([2, 6]), J, (np.array(w.dec_lo), np.array(w.dec_hi)), gen.float_tensor(ck.nprng, (1, 2, H, W)), tol=1e-9, named=name)
 
 
 def spec_check(ck):
